@@ -20,7 +20,8 @@ ASSUMPTIONS = [
     "sections, with values that would change the parse if honoured (WRAP YES with an undeclared surplus column, DLM COMMA/TAB on "
     "blank-separated data, VERS 1.2/3.0, NULL equal to a data value); the oracle compares every section and every cell with the "
     "intended content, in which only ~Version's VERS/WRAP/DLM and ~Well's NULL steer",
-    "LAS 1.2/2.0 titles only (LAS 3.0 *_Data/_Definition/_Parameter section handling is outside the model)",
+    "LAS 1.2/2.0 titles only (LAS 3.0 *_Data/_Definition/_Parameter section handling is outside the model); in a 1.2/2.0 file a "
+    "~V/~W/~C/~P title spelled with an underscore (~Curve_Information) is that section like any other spelling",
     "str.upper/lower modelled for ASCII; generated mnemonics and titles are ASCII",
 ]
 
@@ -38,12 +39,13 @@ STEER = [("VERS", "", "1.2", "planted"), ("WRAP", "", "YES", "planted"), ("NULL"
          ("NULL", "", "2", "planted"), ("WRAP", "", "NO", "planted")]
 
 
-# Title spellings with an underscore (audit A3).  lasio filed ~Curve_Information / ~Parameter_Info of a 1.2/2.0 file as custom
-# sections (its router tests "_" to recognise LAS 3.0 ~X_Data / ~X_Definition titles): a genuine defect, being repaired in lasio
-# together with Model/Read.v route.  The class (1.2/2.0 files only) is switched on when that fix is committed; it is counted under
-# histogram class "underscore_titles" and a disagreement on such a file carries the message prefix "underscore title".  The plain
-# expectation applies: such a title introduces the Version / Well / Curves / Parameter section.
-UNDERSCORE_TITLES = False
+# Title spellings with an underscore (audit A3).  lasio used to file ~Curve_Information / ~Parameter_Info of a 1.2/2.0 file as
+# custom sections (its router tested "_" to recognise LAS 3.0 ~X_Data / ~X_Definition titles): genuine defect, fixed in lasio
+# f4c32c8 (the underscore test now applies to VERS 3.0 files only) together with Model/Read.v route.  The class (1.2/2.0 files
+# only; VERS 3.0 is never the ~Version value here) is counted under histogram class "underscore_titles"; the plain expectation
+# applies (such a title introduces the Version / Well / Curves / Parameter section) and a disagreement on such a file carries
+# the message prefix "underscore title".
+UNDERSCORE_TITLES = True
 US_TITLES = {
     "V": ["~Version_Info", "~VERSION_INFORMATION"],
     "W": ["~Well_Info", "~WELL_INFORMATION"],
@@ -306,7 +308,7 @@ def run(ctx):
     res.cases = len(cases)
     res.distinct_nontrivial = len(orders)
     res.rule = ("LAS 1.2/2.0 files with ~W/~C/~P/~O and 0-2 custom header sections in random order (plus all 120 permutations of "
-                "{W,C,P,O,custom} with ~A at every position after ~C), title spellings from the documented table in both cases, "
+                "{W,C,P,O,custom} with ~A at every position after ~C), title spellings from the documented table in both cases and (20 %) with an underscore (~Curve_Information, ~param_info), "
                 "bodies of 0..n items, steering names planted (VERS/WRAP/DLM in ~W, ~C, ~P, custom; NULL in ~V, ~C, ~P, custom; ~C items "
                 "bound to a data column; values WRAP YES (+ surplus column), DLM COMMA/TAB, VERS 1.2/3.0, NULL = a data value), LF/CRLF, with/without "
                 "final newline; non-trivial = distinct (section order, ~A position, title spelling tuple)")
